@@ -37,11 +37,11 @@ func checkC27(r *Run) {
 	ff := r.P.Facts(whwo)
 	for _, cs := range r.CallSites(whwo, "http.ServeMux.Handle") {
 		got := ff.Term(cs.Common().Args[2])
-		core := "cors.Cors.Handler(^corsHandler, util/http.ElapsedHandler(api.logger, $2))"
-		ok := strings.HasPrefix(got, "util/gziphandler.New(api.basicAuth($0, ^c.username, ^c.password, \"skycoin daemon\", ") &&
-			strings.Contains(got, "api.CSRFCheck($0, ^c.disableCSRF, "+core+")") && // csrf wraps cors(elapsed(h))
-			strings.Contains(got, "dyn:^headerCheck($0, ^c.host, ^c.hostWhitelist, φ(api.CSRFCheck(") && // header checks wrap the csrf layer
-			strings.Contains(got, "api.ContentTypeJSONRequired(φ(dyn:^headerCheck(") && // json wraps the header layer
+		core := "cors.Cors.Handler(^*cors.Cors, util/http.ElapsedHandler(api.logger, $2))"
+		ok := strings.HasPrefix(got, "util/gziphandler.New(api.basicAuth($0, ^$^0.username, ^$^0.password, \"skycoin daemon\", ") &&
+			strings.Contains(got, "api.CSRFCheck($0, ^$^0.disableCSRF, "+core+")") && // csrf wraps cors(elapsed(h))
+			strings.Contains(got, "dyn:^api.newServerMux$1($0, ^$^0.host, ^$^0.hostWhitelist, φ(api.CSRFCheck(") && // header checks wrap the csrf layer
+			strings.Contains(got, "api.ContentTypeJSONRequired(φ(dyn:^api.newServerMux$1(") && // json wraps the header layer
 			strings.Contains(got, "|"+core+")") // each optional layer has a pass-through alternative
 		r.Check("C27-R1", "handler composition gzip(basicAuth([json]([headers]([csrf](cors(elapsed(h)))))))", r.P.Pos(cs.Pos()), ok, trunc(got, 700))
 		r.Check("C27-R1", "registered under the given endpoint", r.P.Pos(cs.Pos()), ff.Term(cs.Common().Args[1]) == "$1", "")
@@ -82,7 +82,7 @@ func checkC27(r *Run) {
 			for _, in := range b.Instrs {
 				if c, ok := in.(*ssa.Call); ok && strings.Contains(wf.Term(c), "webHandlerWithOptionals") || ok && strings.HasPrefix(wf.Term(c), "dyn:^webHandlerWithOptionals") {
 					t := wf.Term(c)
-					okc := strings.Contains(t, ", true, !^c.disableHeaderCheck)")
+					okc := strings.Contains(t, ", true, !^$^0.disableHeaderCheck)")
 					r.Check("C27-R1", "webHandler: CSRF checking on, header checks follow the configuration", r.P.Pos(c.Pos()), okc, trunc(t, 300))
 				}
 			}
@@ -133,41 +133,41 @@ func checkC27(r *Run) {
 	if fm != nil && len(fm.AnonFuncs) == 1 {
 		h := fm.AnonFuncs[0]
 		r.RequireAtCallFn("C27-R3", h, "iface:http.Handler.ServeHTTP", 1,
-			req("the request method is served here (has API sets)", "len(^methodsAPISets[$1.Method]) != 0"),
-			req("one of the endpoint's API sets is enabled", "lookup(^c.enabledAPISets[^methodsAPISets[$1.Method][i]])#1"))
+			req("the request method is served here (has API sets)", "len(^$^2[$1.Method]) != 0"),
+			req("one of the endpoint's API sets is enabled", "lookup(^$^^0.enabledAPISets[^$^2[$1.Method][i]])#1"))
 	} else {
 		r.Fail("C27-R3", "forMethodAPISets handler", "", "anchor-unresolved")
 	}
 	if f := r.P.Fn("api.CSRFCheck:1"); f != nil {
 		r.RequireAtCallAllPaths("C27-R3", f, "iface:http.Handler.ServeHTTP", 1,
 			req("checking disabled, or method is not POST/PUT/DELETE, or the token verified",
-				"^disabled", "ok(api.verifyCSRFToken(http.Header.Get($1.Header, \"X-CSRF-Token\")))", `$1.Method != "DELETE"`))
+				"^$^1", "ok(api.verifyCSRFToken(http.Header.Get($1.Header, \"X-CSRF-Token\")))", `$1.Method != "DELETE"`))
 		// the non-state-changing escape must exclude all three methods
 		r.RequireAtCallAllPaths("C27-R3", f, "iface:http.Handler.ServeHTTP", 1,
-			req("POST never reaches the handler unverified", "^disabled", "ok(api.verifyCSRFToken(*))", `$1.Method != "POST"`))
+			req("POST never reaches the handler unverified", "^$^1", "ok(api.verifyCSRFToken(*))", `$1.Method != "POST"`))
 		r.RequireAtCallAllPaths("C27-R3", f, "iface:http.Handler.ServeHTTP", 1,
-			req("PUT never reaches the handler unverified", "^disabled", "ok(api.verifyCSRFToken(*))", `$1.Method != "PUT"`))
+			req("PUT never reaches the handler unverified", "^$^1", "ok(api.verifyCSRFToken(*))", `$1.Method != "PUT"`))
 	} else {
 		r.Fail("C27-R3", "CSRFCheck handler", "", "anchor-unresolved")
 	}
 	if f := r.P.Fn("api.hostCheck:1"); f != nil {
 		r.RequireAtCallFn("C27-R3", f, "iface:http.Handler.ServeHTTP", 1,
-			req("on a localhost interface a non-empty Host header must be whitelisted", `when: $1.Host != "" && ^isLocalhost => lookup(^hostWhitelistMap[$1.Host])#1`))
+			req("on a localhost interface a non-empty Host header must be whitelisted", `when: $1.Host != "" && ^util/iputil.IsLocalhost(φ($^1|util/iputil.SplitAddr($^1)#0)) => lookup(^map{}[$1.Host])#1`))
 	}
 	if f := r.P.Fn("api.originRefererCheck:1"); f != nil {
 		tc := `φ(http.Header.Get($1.Header, "Origin")|http.Header.Get($1.Header, "Referer"))`
 		r.RequireAtCallFn("C27-R3", f, "iface:http.Handler.ServeHTTP", 1,
 			req("a present Origin/Referer must parse", "when: "+tc+` != "" => ok(url.Parse(`+tc+"))"),
-			req("and its host must be whitelisted", "when: "+tc+` != "" => lookup(^hostWhitelistMap[url.Parse(`+tc+")#0.Host])#1"))
+			req("and its host must be whitelisted", "when: "+tc+` != "" => lookup(^map{}[url.Parse(`+tc+")#0.Host])#1"))
 		r.RequirePhiEdgeAllPaths("C27-R3", f, `http.Header.Get($1.Header, "Referer")`, req("the Origin header is absent (empty)", `http.Header.Get($1.Header, "Origin") == ""`))
 	}
 	if f := r.P.Fn("api.basicAuth:1"); f != nil {
-		u := `subtle.ConstantTimeCompare(cipher.SumSHA256([]byte(http.Request.BasicAuth($1)#0))[:], ^usernameHash[:])`
-		p := `subtle.ConstantTimeCompare(cipher.SumSHA256([]byte(http.Request.BasicAuth($1)#1))[:], ^passwordHash[:])`
+		u := `subtle.ConstantTimeCompare(cipher.SumSHA256([]byte(http.Request.BasicAuth($1)#0))[:], ^cipher.SumSHA256([]byte($^1))[:])`
+		p := `subtle.ConstantTimeCompare(cipher.SumSHA256([]byte(http.Request.BasicAuth($1)#1))[:], ^cipher.SumSHA256*([]byte($^2))[:])`
 		r.RequireAtCallFn("C27-R3", f, "iface:http.Handler.ServeHTTP", 1,
-			req("with credentials configured, the request carries basic auth", "when: ^needsAuth => http.Request.BasicAuth($1)#2"),
-			req("and both username and password match", "when: ^needsAuth => ("+u+" & "+p+") == 1"),
-			req("without credentials configured, the request carries none", `when: !^needsAuth => http.Request.BasicAuth($1)#0 == ""`))
+			req("with credentials configured, the request carries basic auth", `when: ^φ(($^2 != "")|true) => http.Request.BasicAuth($1)#2`),
+			req("and both username and password match", `when: ^φ(($^2 != "")|true) => (`+u+" & "+p+") == 1"),
+			req("without credentials configured, the request carries none", `when: !^φ(($^2 != "")|true) => http.Request.BasicAuth($1)#0 == ""`))
 	}
 	// R4: no digest of a bare concatenation of the two credentials
 	if f := r.fn("C27-R4", "api.basicAuth"); f != nil {
